@@ -3,8 +3,8 @@ symmetric input, weight-ignoring routines return the same for W and binarize(W).
 
 Lean theorems (Props/C10.lean): the clustering / transitivity / degree-strength reductions over the Cluster model (and over R for
 the symmetric-weighted clause); distance, global efficiency, betweenness, edge betweenness, distance_bin / reachdist / kcore
-weight-ignoring as corollaries of the C03 / C08 / C15 theorems about their models.  Predicate-only (no theorem): local efficiency,
-assortativity, density, breadthdist, kcoreness, edge_nei_overlap, findwalks, get_components.  Every clause is also checked here on
+weight-ignoring as corollaries of the C03 / C08 / C15 theorems about their models; local efficiency over Model/LocalEff.lean and
+undirected assortativity over Model/Measures.lean (both replayed here).  Predicate-only (no theorem): density, breadthdist, kcoreness, edge_nei_overlap, findwalks, get_components.  Every clause is also checked here on
 the real code (pairs of public functions on the same matrix)."""
 import sys
 from common import *  # noqa
@@ -110,6 +110,7 @@ MODEL_OPS = {
     '01u': ['cc_wu', 'cc_bu', 'cc_wd', 'cc_bd', 'trans_wu', 'trans_bu', 'trans_wd', 'trans_bd', 'strengths_und', 'degrees_und', 'strengths_dir', 'degrees_dir'],
     '01d': ['cc_wd', 'cc_bd', 'trans_wd', 'trans_bd', 'strengths_dir', 'degrees_dir'],
     'symw': ['cc_wd', 'cc_wu', 'trans_wd', 'trans_wu', 'degrees_dir', 'degrees_und', 'strengths_dir', 'strengths_und'],
+    'effw': [],
     'symg': ['degrees_dir', 'degrees_und', 'strengths_dir', 'strengths_und', 'cc_sign_zhang', 'cc_sign_costantini'],
     'ignu': ['degrees_und', 'degrees_dir'],
     'ignd': ['degrees_dir'],
@@ -172,6 +173,35 @@ def run_probe(task):
 _TIMEOUTS = {}      # per worker process: label -> number of watchdog hits (a hanging routine must not stall the whole check)
 
 
+# further model ops (other drivers): kind -> [(driver, op, bct call)]
+def extra_ops(bct, kind, sym, nonneg):
+    le_b = ('LocalEff', 'eff_bin_local', lambda A: bct.efficiency_bin(A, True))
+    le_w = ('LocalEff', 'eff_wei_local', lambda A: bct.efficiency_wei(A, True))
+    ops = []
+    if kind in ('01u', '01d', 'symw', 'effw') and nonneg:      # connection weights of the efficiency routines are positive
+        ops += [le_w, le_b]
+    if kind == '01u' or (kind == '01d' and sym):
+        ops += [('Measures', 'assortativity_bin', lambda A: bct.assortativity_bin(A, 0)), ('Measures', 'assortativity_wei', lambda A: bct.assortativity_wei(A, 0))]
+    return ops
+
+
+def extra_line(driver, op, W):
+    if driver == 'Measures':
+        return '%s n=%d R=%s%s' % (op, len(W), ','.join(str(int(x)) for row in W for x in row), ' flag=0' if op == 'assortativity_bin' else '')
+    return '%s n=%d W=%s' % (op, len(W), cc.enc(W))
+
+
+def extra_parse(driver, line):
+    """-> list of Fraction / None (non-finite), or None for an error line"""
+    d = kv(line)
+    if 'error' in d:
+        return None
+    key = 'r' if driver == 'Measures' else 'E'
+    if key not in d:
+        return None
+    return [None if x in ('nan', 'inf', '-inf') else F(x) for x in d[key].split(',')] if d[key] != '-' else []
+
+
 def run_pair(label, f, g, Wf, pred, exact, cond, res, t=2.5, rep=None):
     if _TIMEOUTS.get(label, 0) >= 2:
         res['skipped'] += 1; return
@@ -213,7 +243,7 @@ def run_case(case):
     kind = case['kind']; n = len(W)
     Wf = cc.fl(W)
     sym = cc.is_sym(W)
-    res = {'fails': [], 'npairs': 0, 'timeouts': 0, 'skipped': 0, 'rejected': 0, 'evals': {}, 'both_raise': {}, 'nonzero': False, 'model': [], 'model_fail': []}
+    res = {'fails': [], 'npairs': 0, 'timeouts': 0, 'skipped': 0, 'rejected': 0, 'evals': {}, 'both_raise': {}, 'nonzero': False, 'model': [], 'model_fail': [], 'model2': []}
     rep = case.get('rep')
     cond = {'symmetric': sym, 'dtype': rep['dtype'] if rep else 'float64', 'order': rep['order'] if rep else 'C'}
     if kind in ('01u', '01d'):
@@ -228,6 +258,12 @@ def run_case(case):
         Bf = (Wf != 0).astype(float)
         for label, f in ignoring(bct, sym, n):
             run_pair(label, f, lambda _W, f=f: f(Bf.copy()), Wf, PIGN, False, dict(cond, pair=label), res)
+    for driver, op, f in extra_ops(bct, kind, sym, all(x >= 0 for row in W for x in row)):
+        st, out = call(f, Wf.copy(), t=5.0, retry=10)
+        if st != 'ok':
+            res['model_fail'].append((op, st, out)); continue
+        v = np.atleast_1d(np.asarray(out, dtype=float)).ravel().tolist()
+        res['model2'].append((driver, op, [x if np.isfinite(x) else None for x in v]))
     for name in MODEL_OPS[kind]:
         if R is None and name in ('cc_wu', 'cc_wd', 'trans_wu', 'trans_wd') and not cc.is_bin(W):
             continue
@@ -280,6 +316,7 @@ def gen_cases(rs, tier):
         add('01u', cc.rand_mat(rs, n, d, False, [F(1)], isolate=iso), 'rand-01u')
         add('01d', cc.rand_mat(rs, n, d, True, [F(1)], isolate=iso), 'rand-01d')
         add('symw', cc.rand_mat(rs, n, d, False, cc.ROOTS, isolate=iso), 'rand-symw')
+        add('effw', cc.rand_mat(rs, min(n, 9), d, True, cc.ROOTS, isolate=iso), 'rand-effw')     # directed cube weights: LocalEff model only
         add('symw', cc.rand_mat(rs, n, d, False, cc.ROOTS, signed=True, isolate=iso), 'rand-symw-signed')
         add('symg', cc.rand_mat(rs, n, d, False, cc.GENERIC, isolate=iso), 'rand-symg', raw=True)
         add('symg', cc.rand_mat(rs, n, d, False, cc.GENERIC, signed=True, isolate=iso), 'rand-symg-signed', raw=True)
@@ -316,18 +353,19 @@ def main():
                        'pairs where both variants raise the same exception kind (e.g. edge_nei_overlap on a graph whose edge has no other neighbour) carry no claim',
                        'Lean theorems cover the clustering / transitivity / degree / strength clauses (Cluster model) and, as corollaries of the C03 / C08 / C15 '
                        'theorems about the Dist / Between / Core models, distance, global efficiency, betweenness, edge betweenness, distance_bin / reachdist / kcore '
-                       'weight-ignoring; local efficiency, assortativity, density, breadthdist, kcoreness, edge_nei_overlap, findwalks, get_components are predicate-only',
+                       'weight-ignoring; local efficiency (LocalEff model) and undirected assortativity (Measures model) with their own correspondence here; density, breadthdist, kcoreness, edge_nei_overlap, findwalks, get_components are predicate-only',
                        'a call that hits the 2.5 s watchdog is re-tried once with 25 s; only a second timeout is a disagreement']
     ck.trusted = TRUSTED_DEFAULT + ['the Dist / Between / Core models used by the imported corollaries are tied to /repo by the C03 / C08 / C15 checks, not by this one']
-    ok = ck.lean_gate(['BctVerif.Props.C10'], extra_modules=['BctVerif.Model.Cluster'])
+    ok = ck.lean_gate(['BctVerif.Props.C10'], extra_modules=['BctVerif.Model.Cluster', 'BctVerif.Model.LocalEff', 'BctVerif.Model.Measures'])
     if ck.tier == 'thorough' and ok:
-        ck.leanchecker(['BctVerif.Props.C10', 'BctVerif.Model.Cluster'])
+        ck.leanchecker(['BctVerif.Props.C10', 'BctVerif.Model.Cluster', 'BctVerif.Model.LocalEff'])
     if ck.replay:
         cases = cc.replay_cases(ck.replay)
     else:
         cases = gen_cases(ck.rs, ck.tier)
     results = pmap(run_case, cases)
     lines, meta = [], []
+    xl = {'LocalEff': ([], []), 'Measures': ([], [])}
     ev, br = {}, {}
     for r in results:
         if r.get('probe'):
@@ -364,6 +402,8 @@ def main():
             ck.corr_break('bct.%s did not return on a case used for the model correspondence' % cc.PUBLIC[name], {'case': c, 'status': st, 'detail': out})
         for name, out, exact in r['model']:
             lines.append(cc.lean_line(name, W)); meta.append((c, name, out, exact))
+        for driver, op, out in r['model2']:
+            xl[driver][0].append(extra_line(driver, op, W)); xl[driver][1].append((c, op, out))
     if ok:
         try:
             outs = cc.run_driver_par('Cluster', lines)
@@ -378,6 +418,20 @@ def main():
             ck.count('correspondence_cases', len(outs)); ck.count('correspondence_disagreements', nd)
         except DriverError as e:
             ck.corr_break('Cluster driver', str(e))
+        for driver, (xlines, xmeta) in xl.items():
+            try:
+                outs = cc.run_driver_par(driver, xlines)
+                nd = 0
+                for (c, op, out), o in zip(xmeta, outs):
+                    m = extra_parse(driver, o)
+                    if m is None or not cc.same_vec(out, m, False):
+                        nd += 1
+                        if nd <= 5:
+                            ck.corr_break('%s model vs bct (%s)' % (driver, op), {'case': c, 'op': op, 'model': o[:400], 'impl': out})
+                ck.cov['traces_validated_against_impl'] = ck.cov.get('traces_validated_against_impl', 0) + len(outs) - nd
+                ck.count('correspondence_cases:' + driver, len(outs)); ck.count('correspondence_disagreements:' + driver, nd)
+            except DriverError as e:
+                ck.corr_break(driver + ' driver', str(e))
     ck.finish()
 
 
